@@ -269,22 +269,22 @@ def u9_cases(seed, lo, hi, extra):
         ft = "|".join(xt.enc_str(t) for t in cfg.get("formatting_tags", ()))
         reqs.append("\t".join(["xmlfmt", tt, ft, "1" if cfg.get("use_replace") else "0", xt.enc_tree(L), xt.enc_tree(R), xt.enc_script(script), enc_segs(seglists)]))
         pend.append(("U9", res, desc))
-        # U10: the same case with the engine model inside the formatter model (Acc.formatTreeE)
+        # U9e: the same case with the engine model inside the formatter model (Acc.formatTreeE)
         tbl = " ".join(f"{xt.enc_str(k[0])}:{xt.enc_str(k[1])}:" + (f"{v[0]}:{v[1]}" if v else "n:n") for k, v in table.items())
         reqs.append("\t".join(["xmlfmte", tt, ft, "1" if cfg.get("use_replace") else "0", "1" if cfg["normalize"] & 2 else "0", xt.enc_tree(L), xt.enc_tree(R), xt.enc_script(script), tbl]))
-        pend.append(("U10", res, desc))
-        st.units["U10"] = st.units.get("U10", 0) + 1
+        pend.append(("U9e", res, desc))
+        st.units["U9e"] = st.units.get("U9e", 0) + 1
         if seglists:
-            st.hist["u10_cases_with_engine_calls"] = st.hist.get("u10_cases_with_engine_calls", 0) + 1
+            st.hist["u9e_cases_with_engine_calls"] = st.hist.get("u9e_cases_with_engine_calls", 0) + 1
         if table:
-            st.hist["u10_cases_with_bisect"] = st.hist.get("u10_cases_with_bisect", 0) + 1
-        # U12: the projections of the theorems (Fin.accFT / Fin.rejFT) against the projections of the per-run oracle, on
+            st.hist["u9e_cases_with_bisect"] = st.hist.get("u9e_cases_with_bisect", 0) + 1
+        # U9p: the projections of the theorems (Fin.accFT / Fin.rejFT) against the projections of the per-run oracle, on
         # the real output tree (formatter without text tags and without use_replace)
         if res[0] == "ok" and not cfg.get("text_tags") and not cfg.get("formatting_tags") and not cfg.get("use_replace"):
             reqs.append("proj\t" + xt.enc_tree(res[1]))
-            pend.append(("U12", res, desc))
-            st.units["U12"] = st.units.get("U12", 0) + 1
-    # U11: utils.cleanup_whitespace(x).strip() vs. Acc.wsNorm (what _make_diff_tags does to both values under WS_TEXT)
+            pend.append(("U9p", res, desc))
+            st.units["U9p"] = st.units.get("U9p", 0) + 1
+    # U9w: utils.cleanup_whitespace(x).strip() vs. Acc.wsNorm (what _make_diff_tags does to both values under WS_TEXT)
     import random
     from xmldiff import utils
     r = random.Random(seed * 7919 + lo)
@@ -295,11 +295,11 @@ def u9_cases(seed, lo, hi, extra):
         else:
             x = "".join(r.choice(spaces + list("abc")) if r.random() < 0.5 else r.choice("ab ") for _ in range(r.randrange(0, 14)))
         reqs.append("wsnorm\t" + xt.enc_str(x))
-        pend.append(("U11", ("ws", utils.cleanup_whitespace(x).strip()), {"input": repr(x)}))
-        st.units["U11"] = st.units.get("U11", 0) + 1
+        pend.append(("U9w", ("ws", utils.cleanup_whitespace(x).strip()), {"input": repr(x)}))
+        st.units["U9w"] = st.units.get("U9w", 0) + 1
     resp = core.run_driver(reqs)
     for (unit, res, desc), mo in zip(pend, resp):
-        if unit == "U12":
+        if unit == "U9p":
             def bare(t):
                 q = t.copy()
                 for n in q.iter():
@@ -316,14 +316,14 @@ def u9_cases(seed, lo, hi, extra):
                 if bad is None and [n.attrs for n in xt.dec_tree(ma).iter()] != [n.attrs for n in want_a.iter()]:
                     bad = "attribute order"
             if bad:
-                st.disagreements.append({"unit": "U12", "real": xt.to_xml(res[1])[:900], "model": str(bad)[:300], **desc})
+                st.disagreements.append({"unit": "U9p", "real": xt.to_xml(res[1])[:900], "model": str(bad)[:300], **desc})
             continue
-        if unit == "U11":
+        if unit == "U9w":
             if mo.strip() != ("ok " + xt.enc_str(res[1])).strip():
-                st.disagreements.append({"unit": "U11", "real": repr(res[1]), "model": mo[:200], **desc})
+                st.disagreements.append({"unit": "U9w", "real": repr(res[1]), "model": mo[:200], **desc})
             continue
-        if unit == "U10":
-            desc = dict(desc, unit="U10")
+        if unit == "U9e":
+            desc = dict(desc, unit="U9e")
             if mo.startswith("err ") and not mo.startswith("err undo"):
                 mo = "err 0 " + mo[4:]
         if res[0] == "ok":
